@@ -281,7 +281,9 @@ impl Composite
             gates.push(gate);
         }
 
-        let mut composite = Self::new(name, max_bit+1);
+        let nr_bits = max_bit.checked_add(1)
+            .ok_or_else(|| crate::error::ParseError::InvalidBit(max_bit.to_string()))?;
+        let mut composite = Self::new(name, nr_bits);
         for gate in gates
         {
             match gate.name.to_lowercase().as_str()
